@@ -76,11 +76,19 @@ Section Bytewise.
 
   Theorem text_ok_bytewise : text_ok ix unicode h inside.
   Proof.
-    split; [|split; [|split; [|split; [|split]]]].
+    split; [intros q Hq; exact Hq|]. split; [|split; [|split; [|split; [|split; [|split]]]]].
     - intros fwd p c p' Hp E. eapply Hcur; eauto.
     - intros p p' Hp E. rewrite (HA2r p Hp) in E. unfold try_move_right in E. unfold inside in *.
       replace (p <=? len)%nat with true in E by (symmetry; apply Nat.leb_le; lia). cbn [bindR] in E.
       destruct (Nat.ltb_spec (len - p) 1); inversion E; subst. lia.
+    - (* replaying a capture stays inside the text *)
+      intros fwd p rs re e Hp _ _ E. unfold inside in *. unfold subrange_eq in E.
+      destruct (re <? rs)%nat; [discriminate|]. destruct (len <? re)%nat; [discriminate|]. destruct fwd.
+      + unfold try_move_right in E. destruct (p <=? len)%nat; cbn [bindR] in E; [|discriminate].
+        destruct (Nat.ltb_spec (len - p) (re - rs)); cbn [bindR] in E; [discriminate|].
+        destruct (bytes_eqb _ _); [|discriminate]. injection E as He. lia.
+      + unfold try_move_left in E. destruct (Nat.ltb_spec p (re - rs)); cbn [bindR] in E; [discriminate|].
+        destruct (bytes_eqb _ _); [|discriminate]. injection E as He. lia.
     - intros fwd p c p' _ E. rewrite HA1 in E. destruct (bw_byte_step fwd p c p' E) as [Hc _].
       unfold CODE_POINT_MAX. lia.
     - intros fwd q _. rewrite HA1. destruct (next_byte fwd h q) as [e|[[b q1]|]] eqn:En; [exact I| |reflexivity].
@@ -112,11 +120,53 @@ Section Bytewise.
           inversion Esq; subst. eapply bw_next_if_step; eauto.
   Qed.
 
-  (* every node stays inside the text *)
-  Lemma lclo_range utf16 n : lclo ix unicode utf16 h inside n.
+  (* a leaf does not touch the capture slots *)
+  Definition is_leaf (n : node) : Prop :=
+    match n with
+    | NCat _ | NAlt _ _ | NCaptureGroup _ _ _ | NLookaround _ _ _ _ _ | NLoop _ _ _ _ _ _ | NLoop1CharBody _ _ _ _ => False
+    | _ => True
+    end.
+
+  Lemma obindm_same_groups {A} (g : A -> option (list mst)) G : (forall a r, g a = Some r -> Forall (fun y => snd y = G) r) ->
+    forall xs ys, obindm g xs = Some ys -> Forall (fun y => snd y = G) ys.
   Proof.
-    split.
-    - intros f fwd [p G] r Hx E. exact (ir_range ix unicode utf16 h Hcur f n fwd p G r Hx E).
+    intro Hg. induction xs as [|x xs IH]; intros ys E; cbn [obindm] in E; [inversion E; constructor|].
+    destruct (g x) as [a|] eqn:Ea; [|discriminate]. destruct (obindm g xs) as [b|] eqn:Eb; [|discriminate].
+    inversion E; subst. apply Forall_app. split; [eapply Hg; eauto|apply IH; reflexivity].
+  Qed.
+
+  Lemma results_of_groups x r l : results_of x r = Some l -> Forall (fun y => snd y = snd x) l.
+  Proof. destruct r as [[p'|]|]; intro E; inversion E; subst; repeat constructor. Qed.
+
+  Lemma leaf_groups utf16 n : is_leaf n -> forall f fwd p G r,
+    ir_results ix unicode utf16 h f n fwd (p, G) = Some r -> Forall (fun y => snd y = G) r.
+  Proof.
+    intros Hl [|f] fwd p G r E; [discriminate|].
+    destruct n; try contradiction; cbn [ir_results] in E;
+      try (apply (results_of_groups (p, G) _ r) in E; exact E);
+      try (destruct (leaf_code (negb fwd) _) as [code|]; [apply (results_of_groups (p, G) _ r) in E; exact E|discriminate]).
+    - inversion E; subst. repeat constructor.
+    - inversion E; subst. repeat constructor.
+    - unfold cond_results in E. match type of E with match ?c with _ => _ end = _ => destruct c as [e|[|]] end; inversion E; subst; repeat constructor.
+    - unfold cond_results in E. match type of E with match ?c with _ => _ end = _ => destruct c as [e|[|]] end; inversion E; subst; repeat constructor.
+    - destruct (group =? 0); [discriminate|]. destruct (nth_error G (N.to_nat (group - 1))) as [gd|]; [|discriminate].
+      destruct (gd_range gd) as [[rs re]|]; [|inversion E; subst; repeat constructor].
+      destruct (backref_match ix (dummy_prog unicode) icase fwd h p rs re) as [e|[p'|]]; inversion E; subst; repeat constructor.
+    - destruct (bracket_as_ascii b); [apply (results_of_groups (p, G) _ r) in E; exact E|].
+      destruct (next_if ix fwd h p (bracket_matches b)) as [e|[p'|]]; inversion E; subst; repeat constructor.
+    - unfold strset_results in E. eapply (obindm_same_groups _ G); [|exact E]. intros a r0 Ea. cbn beta in Ea.
+      destruct (if utf16 then None else lower_code_point_sequence a icase unicode) as [pieces|]; [|discriminate].
+      apply (results_of_groups (p, G) _ r0) in Ea. exact Ea.
+  Qed.
+
+  (* every node stays inside the text *)
+  Lemma lclo_range utf16 n : is_leaf n -> lclo ix unicode utf16 h inside n.
+  Proof.
+    intro Hl. split.
+    - intros f fwd [p G] r [Hp HG] E. cbn [fst snd] in Hp, HG.
+      pose proof (ir_range ix unicode utf16 h Hcur f n fwd p G r Hp E) as Hr.
+      pose proof (leaf_groups utf16 n Hl f fwd p G r E) as Hg. unfold okpos in Hr. unfold okl. rewrite Forall_forall in *.
+      intros y Hy. split; [apply Hr; exact Hy|rewrite (Hg y Hy); exact HG].
     - intros fwd s Es q q' Hq E. unfold single_step in Es. destruct (leaf_code (negb fwd) n) as [code|] eqn:Ec.
       + injection Es as Hs. subst s. eapply (run_insns_range ix unicode h Hcur code fwd q q' Hq E).
       + destruct n; try discriminate Es. injection Es as Hs. subst s. cbn beta in E.
@@ -127,7 +177,7 @@ Section Bytewise.
   Lemma al_range utf16 : forall n, al ix unicode utf16 h inside n.
   Proof.
     induction n as [n Hleaf|l H|a b IHa IHb|id c nm IHc|neg bw sg eg c IHc|b mn mx g egs ege IHb|b mn mx g IHb] using node_ind2.
-    - destruct n; try contradiction; apply lclo_range.
+    - destruct n; try contradiction; apply lclo_range; exact I.
     - apply al_cat. exact H.
     - split; assumption.
     - exact IHc.
@@ -170,7 +220,7 @@ Section Bytewise.
 
   Theorem text_enc_bytewise : text_enc ix h inside.
   Proof.
-    split; [intros q Hq; exact Hq|]. split.
+    split.
     - intros fwd q c Hq Hs. unfold next_if. rewrite HA1.
       destruct (N.ltb_spec c 128) as [Hc|Hc].
       + (* an ASCII literal: one byte *)
